@@ -389,6 +389,101 @@ def read_loops(root: Path):
     return rows
 
 
+def read_seeks(root: Path):
+    """every cursor move other than reading in the reading functions (same modules / functions as `read_loops`):
+    (module, function, call text, "loop" | "straight") - "loop" when the call lies in the body of a loop or comprehension
+    of its function; rows of a function in source order.  The progress arguments of the cost model (an item of a
+    count-driven loop consumes at least one byte or fails) assume that nothing inside a loop moves the cursor backwards."""
+    rows = []
+    for mod, path in modules(root):
+        if not _is_reader_module(mod):
+            continue
+        try:
+            tree = ast.parse(path.read_text(encoding="utf-8"))
+        except Exception as e:  # noqa
+            rows.append(("?", "extractor", f"failed: {mod}: {type(e).__name__}", ""))
+            continue
+        per = []
+        for qual, node, isfn, prop in scopes(tree):
+            if not isfn or not is_reader_function(qual, prop):
+                continue
+            in_loop = set()
+            for n in _own(node):
+                if isinstance(n, LOOPS):
+                    for m in _body_nodes(n.body + n.orelse):
+                        in_loop.add(id(m))
+                elif isinstance(n, COMPS):
+                    for m in _own(n):
+                        in_loop.add(id(m))
+            for n in _own(node):
+                if isinstance(n, ast.Call) and isinstance(n.func, ast.Attribute) and n.func.attr in ("seek", "truncate"):
+                    per.append((qual, n.lineno, n.col_offset, (mod, qual, n.func.attr + "(" + _args_text(n) + ")",
+                                                               "loop" if id(n) in in_loop else "straight")))
+        rows += [r for _, _, _, r in sorted(per, key=lambda x: x[:3])]
+    return rows
+
+
+def seeks_source(root: Path) -> tuple[str, list]:
+    try:
+        rows = read_seeks(root)
+    except Exception as e:  # noqa
+        rows = [("?", "extractor", f"failed: {type(e).__name__}: {e}", "")]
+    src = ("namespace PsdVerif.Generated.ReadSeeks\n"
+           "/-- every `seek` / `truncate` of the reading functions of psd/*.py, utils.py, compression/*.py:\n"
+           "(module, function, call, \"loop\" when it lies inside a loop of its function else \"straight\") -/\n"
+           f"def seeks : List (String × String × String × String) := {_rows(rows)}\n"
+           "end PsdVerif.Generated.ReadSeeks\n")
+    return src, rows
+
+
+def gen_read_seeks(ctx):
+    src, rows = seeks_source(_root_of_ctx())
+    _note_sentinels(ctx, "gen_read_seeks", [(r[0], r[1], "", r[2]) for r in rows])
+    ctx.write_generated("ReadSeeks", src)
+    return {"seeks": len(rows), "in_loops": sum(1 for r in rows if r[3] == "loop")}
+
+
+def loop_spans(root: Path):
+    """the count-driven and while loops of `read_loops` (same modules, same functions, same kind / header text) with
+    their line spans: what the malformed stream of C06 needs to find an INSTANCE of a loop of the table in a traced parse
+    -> [dict(mod, path, qual, kind, header, fn_start, fn_end, line, body_start, end)]; never raises"""
+    out = []
+    try:
+        for mod, path in modules(root):
+            if not _is_reader_module(mod):
+                continue
+            try:
+                tree = ast.parse(path.read_text(encoding="utf-8"))
+            except Exception:  # noqa
+                continue
+            for qual, node, isfn, prop in scopes(tree):
+                if not isfn or not is_reader_function(qual, prop):
+                    continue
+                for n in _own(node):
+                    if isinstance(n, (ast.For, ast.AsyncFor)):
+                        kind, header = _iter_kind(n.iter)
+                        body_start = n.body[0].lineno
+                    elif isinstance(n, ast.While):
+                        kind, header, body_start = "while", _u(n.test), n.body[0].lineno
+                    elif isinstance(n, COMPS) and n.generators:
+                        kind, header = _iter_kind(n.generators[0].iter)
+                        body_start = n.lineno
+                    else:
+                        continue
+                    if kind not in ("count", "while"):
+                        continue
+                    out.append(dict(mod=mod, path=str(path), qual=qual, kind=kind, header=header, fn_start=node.lineno,
+                                    fn_end=node.end_lineno, line=n.lineno, body_start=body_start, end=n.end_lineno))
+    except Exception:  # noqa
+        pass
+    seen = {}
+    for sp in sorted(out, key=lambda x: (x["mod"], x["qual"], x["line"])):
+        k = (sp["mod"], sp["qual"], sp["kind"], sp["header"])
+        sp["ord"] = seen.get(k, 0)          # 0 for the first loop with this row text, 1, 2 ... for its repetitions
+        seen[k] = sp["ord"] + 1
+    return out
+
+
 # ------------------------------------------------------------------------------------------------ Lean sources
 
 def alloc_source(root: Path) -> tuple[str, list]:
